@@ -2,14 +2,14 @@
     Statements only; every proof is [exact <lemma>].
 
     NOT YET PROVED (stated here so that the gap is visible):
-    - Clone of ArrayBuilder / ArrayConsumer (b_clone, c_clone, incl. a panicking T::clone)
-      preserves the representation invariant; it is covered by the correspondence run only.
-    - The miniature iterator-DSL loop (stages_step / chain_items) is a harness-side model
-      for collect_const! programs; no theorem relates it to std iterators (that is C10's
-      subject); the collect_const! theorems below are stated for whatever items the two
-      const evaluations yield. *)
+    - nothing of the plan.  (Clone of ArrayBuilder / ArrayConsumer incl. a panicking T::clone
+      is proved in Properties/C15.v: C15_history_* .  collect_const! of a DSL chain is proved
+      end to end below against Model.Dsl — C11_collect_const_dsl_eq_std.  The miniature loop
+      stages_step / chain_items with break/continue inside closures remains a harness-side
+      model for the generated early-exit programs.) *)
 From KV Require Import Base.Prelude Model.ArrayMacros Model.Ledger Spec.ArrayMacros
   Proofs.ArrayMacrosProofs Proofs.LedgerProofs.
+From KV Require Import Model.Dsl Spec.Dsl Proofs.CollectDslProofs.
 Local Open Scope nat_scope.
 
 (** array::map!: for EVERY closure behaviour (per-evaluation outcomes value / break /
@@ -79,16 +79,34 @@ Proof. exact @from_fn_eq_std. Qed.
 (** collect_const!: a Built result has every slot written by the second pass's items and
     both passes counted the same; a deterministic chain gives exactly std's collect; passes
     that disagree panic (a compile error in the const item) *)
-Theorem C11_collect_built_full : forall items1 items2 slots,
+Theorem C11_collect_built_full : forall (A : Type) (items1 items2 : list A) slots,
   collect_const_m items1 items2 = CBuilt slots ->
   fully_init slots /\ slots = map Some items2 /\ length items2 = length items1.
-Proof. exact collect_built_full. Qed.
-Theorem C11_collect_two_pass_agree : forall items,
+Proof. exact @collect_built_full. Qed.
+Theorem C11_collect_two_pass_agree : forall (A : Type) (items : list A),
   collect_const_m items items = CBuilt (map Some (std_collect items)).
-Proof. exact collect_two_pass_agree. Qed.
-Theorem C11_collect_disagree_panics : forall items1 items2,
+Proof. exact @collect_two_pass_agree. Qed.
+Theorem C11_collect_disagree_panics : forall (A : Type) (items1 items2 : list A),
   length items1 <> length items2 -> collect_const_m items1 items2 = CPanicked.
-Proof. exact collect_disagree_panics. Qed.
+Proof. exact @collect_disagree_panics. Qed.
+
+(** collect_const! of an iterator-DSL chain, END TO END (with C10): the two const evaluations
+    run the same loop nest ([Model.Dsl.macro_sem] with the for_each/collect consumer), so the
+    array is fully written and holds exactly what the identical std chain collects — for every
+    adapter list, all closures, every source; outside the known-finding class of C10 (a
+    reversing method after take/skip/zip), and with no side condition for chains that do not
+    reverse *)
+Theorem C11_collect_const_dsl_built : forall ms src,
+  collect_const_dsl ms src = CBuilt (map Some (as_dlist (macro_sem ms CForEach src))).
+Proof. exact collect_const_dsl_built. Qed.
+Theorem C11_collect_const_dsl_eq_std : forall ms src,
+  accepted ms CForEach = true -> no_rev_after_positional ms CForEach src ->
+  collect_const_dsl ms src = CBuilt (map Some (as_dlist (std_sem ms CForEach src))).
+Proof. exact collect_const_dsl_eq_std. Qed.
+Theorem C11_collect_const_dsl_eq_std_forward : forall ms src,
+  reverses ms CForEach = false ->
+  collect_const_dsl ms src = CBuilt (map Some (as_dlist (std_sem ms CForEach src))).
+Proof. exact collect_const_dsl_eq_std_forward. Qed.
 
 (** ArrayBuilder: build succeeds iff full; returns the pushes in push order; over-fill
     panics in push (builder unchanged), under-fill panics in build (pushed elements dropped) *)
@@ -170,3 +188,6 @@ Print Assumptions C11_from_fn_by_val_built.
 Print Assumptions C11_map_by_val_eq_std.
 Print Assumptions C11_from_fn_by_val_eq_std.
 Print Assumptions C11_map_value_eq_std_satisfiable.
+Print Assumptions C11_collect_const_dsl_built.
+Print Assumptions C11_collect_const_dsl_eq_std.
+Print Assumptions C11_collect_const_dsl_eq_std_forward.
